@@ -14,7 +14,7 @@ from __future__ import annotations
 import random
 
 from mc.c20_rt import RT, ClockShim, Livelock
-from mc.common import Ctx, InternalError, pmap
+from mc.common import Ctx, InternalError, pmap, pmap_tagged
 from mc.explore import Chooser, Horizon
 from mc.fd import build
 from mc.refgrammar import Alt, Lit, NT, Opt, RefGrammar, Rep, Rx, Seq, Star, WordMatcher, viable
@@ -262,7 +262,7 @@ def explore(ctx: Ctx, bound: int, cap: int) -> dict:
     agg = {"executions": 0, "horizon": 0, "errors": {}, "capped": 0, "outcomes": set(), "points_default": {}}
     samples = []
     for level in range(bound + 1):
-        results = pmap(io_run, frontier, chunk=2)
+        results = pmap_tagged(io_run, frontier, chunk=2)
         nxt = []
         for task, r in zip(frontier, results):
             agg["executions"] += 1
@@ -355,7 +355,7 @@ def run(ctx: Ctx) -> None:
     bound = 2 if ctx.quick else 3
     agg = explore(ctx, bound, cap=2500 if ctx.quick else 60000)
     free_tasks = [(s, p, seed) for s in SCENARIOS for p, v in SCENARIOS[s]["scripts"].items() if v[2] == "complete" for seed in range(2 if ctx.quick else 6)]
-    free = pmap(free_running, free_tasks, chunk=1)
+    free = pmap_tagged(free_running, free_tasks, chunk=1)
     for r in free:
         for v in r["viol"]:
             v["free_running"] = True
